@@ -1397,3 +1397,11 @@ VP("C20-R3D-mut-methods-virtual-first", "C20", "append form: methods test drops 
    "        if not is_virtual and isinstance(field, InstanceMethodField):", "        if not is_virtual:")
 VP("C20-R3D-mut-kwonly-unused", "C20", "argspec accessor: keyword-only parameters no longer rendered", "C20-R3D", STUBS,
    "    args, varargs, varkw, _, kwonlyargs, _, annotations = field.argspec", "    args, varargs, varkw, _, _kw, _, annotations = field.argspec\n    kwonlyargs = []")
+VP("C18-R3D-mut-update-wrong-key", "C18", "update-with-dict-comprehension form: nested result looked up under another key", "C18-R3D", CORE,
+   "                key: self._process_includes(sub_schema, tree[key], format_factory)", "                key: self._process_includes(sub_schema, tree, format_factory)")
+VP("C18-R3D-mut-include-stale-tree", "C18", "helper form: every include merges into the original tree", "C18-R3D", CORE,
+   "                tree = field.include(self, format_factory(), filename, tree)", "                merged = field.include(self, format_factory(), filename, tree)")
+VP("C18-R3D-mut-nested-dropped", "C18", "update form: nested results computed but not stored", "C18-R3D", CORE,
+   "        tree.update(\n            {", "        dict(tree).update(\n            {")
+VP("C18-R3D-mut-exists-table", "C18", "table-driven exists check: 'file' row tests isdir", "C18-R3D", "cincoconfig/fields/file_field.py",
+   '("file", "file", os.path.isfile)', '("file", "file", os.path.exists)')
